@@ -49,7 +49,77 @@ func run(items []string) []string {
 
 var addrs = []string{"1.1.1.1:10480", "1.1.1.1:10580", "2.2.2.2:10480", "9.9.9.9:1"}
 
+// bigRegistry: a registry of n distinct servers (addresses 10.x.y.z:10480, a status word and a refresh time derived from
+// the index), then filters that match all / most / few of them, the counts, and a second round after removing one server.
+// A fetch done in batches (HMGET of 100, 128, 256, 300, 512, 1000 … keys at a time) behaves like the single fetch only if
+// every boundary is right: the sizes sit on and around such boundaries.
+func bigRegistry(rng *rand.Rand, n int, emit core.Emit) {
+	epoch := world.Epoch.UnixNano()
+	var items []string
+	for i := 0; i < n; i++ {
+		a := fmt.Sprintf("10.%d.%d.%d:10480", i/65536, i/256%256, i%256)
+		st := 2 | 4 // master|info
+		if i%3 == 0 {
+			st |= 8 // details
+		}
+		if i%50 == 7 {
+			st = 1 // new: matched by few filters
+		}
+		items = append(items, fmt.Sprintf("add|%s/10481/%d/0/%d|refuse", a, st, epoch-int64(i%5)*256000))
+	}
+	items = append(items, "count", "countby", "filter|0|0|z|z|z|z", "filter|2|0|z|z|z|z", "filter|6|0|z|z|z|z", "filter|8|0|z|z|z|z", "filter|0|8|z|z|z|z", "filter|1|0|z|z|z|z",
+		fmt.Sprintf("filter|2|0|%d|z|z|z", epoch-2*256000), fmt.Sprintf("filter|0|0|z|%d|z|z", epoch-2*256000))
+	victim := rng.Intn(n)
+	items = append(items, fmt.Sprintf("remove|10.%d.%d.%d:10480/10481/6/5/z|accept", victim/65536, victim/256%256, victim%256), "filter|2|0|z|z|z|z", "count", "countby")
+	emit("hist", strings.Join(items, ","))
+}
+
+// bigInstances / bigQueue: the instance table cleared of n outdated entries at once, the probe queue drained of n probes by
+// one PopMany — the batch-wise variants of these calls must treat every batch alike.
+func bigInstances(n int, emit core.Emit) {
+	epoch := world.Epoch.UnixNano()
+	var items []string
+	for i := 0; i < n; i++ {
+		items = append(items, fmt.Sprintf("insadd|%08x|10.%d.%d.%d:10480", i+1, i/65536, i/256%256, i%256))
+	}
+	items = append(items, "t256000")
+	for i := 0; i < 3; i++ {
+		items = append(items, fmt.Sprintf("insadd|%08x|9.9.9.%d:10480", 0x7f000000+i, i+1))
+	}
+	items = append(items, fmt.Sprintf("insclear|%d", epoch+256000), "insclear|z")
+	emit("hist", strings.Join(items, ","))
+}
+
+func bigQueue(n int, emit core.Emit) {
+	epoch := world.Epoch.UnixNano()
+	var items []string
+	for i := 0; i < n; i++ {
+		exp := "z"
+		if i%10 == 3 {
+			exp = fmt.Sprint(epoch + 256) // expired by the time of the pop
+		}
+		items = append(items, fmt.Sprintf("penq|10.%d.%d.%d:10480|10481|%d|%d|3|%d|%s", i/65536, i/256%256, i%256, i%2, i%4, epoch-int64(n-i)*256, exp))
+	}
+	items = append(items, "t512000", fmt.Sprintf("ppop|%d", n/2), fmt.Sprintf("ppop|%d", n), "ppop|1")
+	emit("hist", strings.Join(items, ","))
+}
+
 func gen(rng *rand.Rand, tier core.Tier, emit core.Emit) {
+	for _, sz := range []int{99, 100, 101, 255, 256, 257, 499, 500, 501, 999, 1000, 1001, 1023, 1024, 1025, 1500, 2001} {
+		bigInstances(sz, emit)
+		bigQueue(sz, emit)
+	}
+	sizes := []int{63, 64, 65, 99, 100, 101, 127, 128, 129, 199, 200, 201, 249, 250, 251, 255, 256, 257, 299, 300, 301, 383, 384, 385, 499, 500, 501, 511, 512, 513,
+		599, 600, 601, 767, 768, 769, 999, 1000, 1001, 1023, 1024, 1025}
+	if tier == core.Thorough {
+		sizes = append(sizes, 1535, 1536, 1537, 2047, 2048, 2049, 4095, 4096, 4097)
+		for i := 0; i < 20; i++ {
+			sizes = append(sizes, 2+rng.Intn(3000))
+		}
+	}
+	for _, sz := range sizes {
+		bigRegistry(rng, sz, emit)
+	}
 	n, maxLen := 600, 60
 	if tier == core.Thorough {
 		n, maxLen = 3000, 300
